@@ -5,11 +5,14 @@
 (* for both kinds (js, css) and both tag names (own and the other one).     *)
 (* Every case is an initial state; TLC checks that the declarative and the  *)
 (* operational definition agree and exports the admitted outcomes and the   *)
-(* prediction of the named deviation.                                       *)
+(* prediction of the named deviation.  Every component is rendered         *)
+(* MaxRenders times in one process (a history); the admitted outcomes are   *)
+(* those of the content at EVERY render (EndTagGuard: Histories).           *)
 (***************************************************************************)
 EXTENDS EndTagGuard, TLC, Json, IOUtils
 
-CONSTANT MaskMode        \* "few" | "all": which letter-case patterns of the tag name
+CONSTANT MaskMode,       \* "few" | "all": which letter-case patterns of the tag name
+         MaxRenders      \* how often every component is rendered in one process
 
 Kinds == {"js", "css"}
 Prefixes == {"M1", "M1 </", "M1</scriptx></stylex>", "M1 <"}
@@ -37,13 +40,22 @@ Shape == Ch(g.s, 1) \notin WS /\ Ch(g.s, Len(g.s)) \notin WS
          /\ \A i \in 1..Len(g.s) : ~MatchAt(g.s, i, "<!--")
 \* a terminating content is never also one that must be emitted
 AdmittedNonEmpty == GuardAdmitted(g.kind, g.s) # {}
+\* what the first render of a component did does not change what its later renders may do: a history
+\* (first, later, later, ...) with an admitted first render is admitted iff `later` is admitted for the
+\* content - so a terminating content that was refused (or left out) once is not emitted afterwards
+HistoryLaw ==
+  LET adm == GuardAdmitted(g.kind, g.s)
+      ev(o) == [gkind |-> g.kind, s |-> g.s, outcome |-> o, rest |-> ""]
+      hist(first, later) == [i \in 1..MaxRenders |-> ev(IF i = 1 THEN first ELSE later)] IN
+  \A first \in adm, later \in {"refused", "absent", "emitted"} :
+    HistoryAdmitted(hist(first, later)) <=> later \in adm
 
 SetToSeq(s) == LET RECURSIVE R(_)
                    R(x) == IF x = {} THEN <<>> ELSE LET e == CHOOSE e \in x : TRUE IN <<e>> \o R(x \ {e})
                IN R(s)
 Export ==
   Serialize(ToJson([kind |-> g.kind, s |-> g.s, admitted |-> SetToSeq(GuardAdmitted(g.kind, g.s)),
-                    terminates |-> Terminates(g.s, TagOf(g.kind)), dev |-> DevGuard(g.kind, g.s)]) \o "\n",
+                    renders |-> MaxRenders, terminates |-> Terminates(g.s, TagOf(g.kind)), dev |-> DevGuard(g.kind, g.s)]) \o "\n",
             IOEnv.OUT, [format |-> "TXT", charset |-> "UTF-8",
                         openOptions |-> <<"WRITE", "CREATE", "APPEND">>]).exitValue = 0
 =============================================================================
